@@ -7,6 +7,10 @@ import (
 
 // Eval evaluates ast recursively.
 func Eval(node ast.Node, env *object.Env) object.PanObject {
+	if err := verifTick(); err != nil {
+		return err
+	}
+
 	switch node := node.(type) {
 	// Program
 	case *ast.Program:
